@@ -976,28 +976,35 @@ def gen_syscall(rng):
         k, key = rng.choice(cand)
         if k == "s": key = rng.randrange(4)
         if k == "f" and rng.random() < 0.25: k = "o"      # syscall_once of the same function: fresh state, not cached
+        if k == "n" and rng.random() < 0.3: k = "m"       # named_syscall_direct: by name only, fails if unregistered / running
         return "%s %d %d" % (k, key, rng.randrange(1, 9))
     for r, (k, key) in enumerate(ranks):
         excl = rng.random() < 0.4
         runs = []
-        for run in range(rng.randint(0, 3)):
+        for run in range(rng.randint(0, 4)):
             ops = []
             for _ in range(rng.randint(0, 2)):
                 x = rng.random()
                 # syscall / named_syscall scripts only call higher-ranked keys (no cycles through re-entrant fresh state);
                 # spawned systems may call anything: a cycle through a running spawned system is cut by its error
                 c = call(0 if (k == "s" or (run >= 1 and rng.random() < 0.35)) else r + 1)
-                if x >= 0.9 or (k == "s" and x >= 0.8): ops.append("x %d" % rng.randrange(4))
+                if x >= 0.96: ops.append(rng.choice(["g %d", "v %d"]) % rng.randrange(3))
+                elif x >= 0.9 or (k == "s" and x >= 0.8): ops.append("x %d" % rng.randrange(4))
                 elif c is None or x >= 0.75: ops.append("w %d" % rng.randrange(100))
                 elif x < 0.3 and excl: ops.append("d " + c)
                 else: ops.append("q " + c)
+            if run == 1 and k in "fn" and rng.random() < 0.3:
+                # same-key re-entrancy: the nested call gets a fresh system (which runs script 0), the outer one must persist
+                kk = "m" if (k == "n" and rng.random() < 0.2) else k
+                ops.append(("d " if excl and rng.random() < 0.5 else "q ") + "%s %d %d" % (kk, key, rng.randrange(1, 9)))
             runs.append(ops)
         out.append("scdef %s %d %d %d" % (k, key, 1 if excl else 0, len(runs)))
         for ops in runs: out.append("run %d" % len(ops)); out += ops
     for _ in range(rng.randint(1, 3)): out.append("top spawn %d" % rng.randrange(3))
-    for _ in range(rng.randint(3, 10)):
+    for _ in range(rng.randint(4, 14)):
         x = rng.random()
-        if x < 0.8: out.append("top call " + call(0))
+        if x < 0.74: out.append("top call " + call(0))
+        elif x < 0.8: out.append(rng.choice(["top reg %d", "top revoke %d"]) % rng.randrange(3))
         elif x < 0.9: out.append("top spawn %d" % rng.randrange(3))
         else: out.append("top despawn %d" % rng.randrange(4))
     return "\n".join(out) + "\n"
